@@ -24,3 +24,21 @@ def note(s):
 
     with NoTracing():
         NOTES.append(str(s))
+
+
+class _Null:
+    def __enter__(self):
+        return self
+
+    def __exit__(self, *a):
+        return False
+
+
+def untraced():
+    """Context manager: suspend CrossHair tracing (no-op during native replay). Only used around
+    harness-side bookkeeping on values that are already concrete (builders, reference oracles)."""
+    if NATIVE:
+        return _Null()
+    from crosshair.tracers import NoTracing, is_tracing
+
+    return NoTracing() if is_tracing() else _Null()
